@@ -64,6 +64,10 @@ def main(ctx):
                         if kind == "message" and L >= 125:
                             jobs.append({"part": "recv", "role": role, "fbd": fbd, "kind": kind,
                                          "limit": L, "tier": tier, "compress": True})
+                        if kind in ("frame", "message") and (L == 125 or tier == "thorough") and not fbd:
+                            for via in ("class", "instance"):
+                                jobs.append({"part": "recv", "role": role, "fbd": fbd, "kind": kind,
+                                             "limit": L, "tier": tier, "compress": False, "via": via})
                 for L in LIMITS:
                     jobs.append({"part": "send", "role": role, "limit": L, "tier": tier,
                                  "fbd": fbd})
@@ -92,6 +96,13 @@ def _endpoint(a, compress=None, extra_opts=None):
     if kind == "both2":
         opts["maxMessagePayloadSize"] = 4 * L
     opts.update(extra_opts or {})
+    via = a.get("via")
+    if via in ("class", "instance"):
+        # the limits are per-protocol overrides (class attribute of the protocol subclass / attribute
+        # set on the instance before the connection is made); the factory keeps its defaults
+        lim = {k: opts.pop(k) for k in ("maxFramePayloadSize", "maxMessagePayloadSize") if k in opts}
+        return ws.open_endpoint(a["role"], opts, compress=compress,
+                                **{"proto_class_attrs" if via == "class" else "proto_attrs": lim})
     return ws.open_endpoint(a["role"], opts, compress=compress)
 
 
@@ -138,7 +149,14 @@ def _obs(ep):
     frames, _ = F.parse_frames(bytes(ep.t.written)[ep._hs_written:])
     closes = [f.payload for f in frames if f.opcode == 8]
     code = struct.unpack("!H", closes[0][:2])[0] if closes and len(closes[0]) >= 2 else None
-    return {"msgs": [(e[1], e[2]) for e in ep.rec if e[0] == "onMessage"],
+    msgs = [(e[1], e[2]) for e in ep.rec if e[0] == "onMessage"]
+    # the application may consume messages through proto.on("message", cb) instead of overriding
+    # onMessage(): whatever reaches such a listener is a delivery, too (shown as (payload, 'listener')
+    # when it differs from what onMessage() got)
+    lmsgs = list(getattr(ep.proto, "lrec", msgs))
+    if lmsgs != msgs:
+        msgs = msgs + [(p_, "listener") for p_, b_ in lmsgs]
+    return {"msgs": msgs,
             "state": ep.state(), "calls": list(ep.t.calls), "close_code": code,
             "n_close": len(closes), "escapes": [repr(e) for e in ep.conn.escapes]}
 
